@@ -103,7 +103,12 @@ func peach(fm *Frame, opts peachOpt, f Callable, inputs Inputs) error {
 			return
 		}
 		if workerSema != nil {
-			workerSema.Acquire(ctx, 1)
+			if workerSema.Acquire(ctx, 1) != nil {
+				// The context was cancelled (interrupt); no slot was
+				// acquired, so don't start more workers.
+				atomic.StoreInt32(&broken, 1)
+				return
+			}
 		}
 		wg.Add(1)
 		go func() {
